@@ -55,7 +55,10 @@ func execC37(c run.Case) (res run.Result) {
 	return
 }
 
-// orcUnchanged lists differences of pre-existing elements (IDs expected stable).
+// orcUnchanged lists differences of pre-existing elements (IDs expected stable). IDs are
+// compared case-insensitively: d2 identifies objects case-insensitively and spells an ID
+// the way its first reference does, so removing or adding a reference may legitimately
+// change the letter case of an ID.
 type orcSame struct {
 	SkipObj  func(pre int) bool
 	SkipEdge func(pre int) bool
@@ -93,7 +96,7 @@ func orcUnchanged(pre, post *orcSnap, o orcSame) (diffs []string, judged int) {
 		}
 		judged++
 		qo := post.Objs[j]
-		if po.AbsID != qo.AbsID {
+		if !strings.EqualFold(po.AbsID, qo.AbsID) {
 			diffs = append(diffs, fmt.Sprintf("object %s changed ID %s -> %s", pre.ref(i), po.AbsID, qo.AbsID))
 		}
 		if d := orcObjSameContent(pre, i, post, j); d != "" {
@@ -125,7 +128,7 @@ func orcUnchanged(pre, post *orcSnap, o orcSame) (diffs []string, judged int) {
 		}
 		judged++
 		qe := post.Edges[j]
-		if pe.AbsID != qe.AbsID {
+		if !strings.EqualFold(pe.AbsID, qe.AbsID) {
 			diffs = append(diffs, fmt.Sprintf("connection %s changed ID %s -> %s", orcEdgeRef(pre, i), pe.AbsID, qe.AbsID))
 		}
 		if a, b := pre.edgeContent(i, true), post.edgeContent(j, true); a != b {
@@ -177,6 +180,10 @@ func c37Create(s *orcStep, res *run.Result) {
 	}
 	if s.Pre.hollow(s.Call.BoardIdx) {
 		res.Inc("skipped_board_declared_without_map")
+		return
+	}
+	if orcWentHollow(s) {
+		res.Inc("skipped_board_emptied_and_printed_without_map")
 		return
 	}
 	if pre.underSpecial(k.Obj) || (k.Edge && (pre.underSpecial(k.Src) || pre.underSpecial(k.Dst))) {
@@ -263,6 +270,10 @@ func c37Set(s *orcStep, res *run.Result) {
 	}
 	if s.Pre.hollow(s.Call.BoardIdx) {
 		res.Inc("skipped_board_declared_without_map")
+		return
+	}
+	if orcWentHollow(s) {
+		res.Inc("skipped_board_emptied_and_printed_without_map")
 		return
 	}
 	if pre.underSpecial(k.Obj) && !(len(k.Attr) > 0 && pre.findObj(k.Obj) >= 0 && !pre.underSpecial(k.Obj[:len(k.Obj)-1])) {
